@@ -54,6 +54,7 @@ def run(ctx) -> None:
     ctx.section("mask", _mask, ctx)
     ctx.section("missing", _missing, ctx)
     ctx.section("empty-list-mask", _empty_list_mask, ctx)
+    ctx.section("mapping-is-one-operand", _mapping_is_one_operand, ctx)
     ctx.section("rows", _rows, ctx)
     ctx.section("names", nameres.check, ctx, "f.name-resolution")
     ctx.not_decided += [
@@ -519,6 +520,13 @@ def _mask(ctx) -> None:
                                     and any(x == RK_ for x in subterms(c)) for c, pol in flatten_conds(conds)) or \
         any(pol and c[0] == "call" and c[1] == ("name", "isinstance") and c[2] == (RK_, ("name", "str")) for c, pol in flatten_conds(conds))
     str_events = [e for e in ri_.events if is_str_path(e.conds)]
+    # a name is any str, a subclass instance included (an enum.StrEnum member): `type(key) is str` sends it on to the vector indexing,
+    # which knows no names, while t[key], t[rows, key] and t[i, key] = x find the column
+    exact_type = [e for e in str_events if any(pol and c[0] == "cmp" and c[1] in ("Is", "Eq") and ("name", "str") in (c[2], c[3])
+                                               for c, pol in flatten_conds(e.conds))]
+    if exact_type:
+        rprobs.append("the name path is entered only for `type(key) is str`: row[Col.QTY] with an enum.StrEnum member (or any str subclass) is "
+                      "refused although table[Col.QTY] finds the column")
     if not str_events:
         rprobs.append("no branch for a string key")
     for e in str_events:
@@ -733,6 +741,20 @@ def certainly_raised_for_empty_list(prog, q, self_len=None, errors=("TypeError",
         if fc and all(truth(c) is pol for c, pol in fc):
             refused.append(e)
     return n_r, refused
+
+
+def _mapping_is_one_operand(ctx) -> None:
+    """`computed elementwise by Python's own comparison`: a mapping operand is ONE value (an int never equals a dict) - iterated, its KEYS
+    would be paired with the elements.  Sibling agreement over the kernels (serifscan/onecell.py): every one-operand-or-sequence test of
+    a comparison kernel, of the arithmetic kernel and of the reflected addition exempts Mapping."""
+    from ..onecell import sites
+    ss = [s_ for s_ in sites(ctx.prog) if s_[0].split(".")[-1] in ("_elementwise_compare", "_elementwise_operation", "__radd__")]
+    bad = [s_ for s_ in ss if "Mapping" not in s_[2]]
+    f = ctx.prog.func("vector.Vector._elementwise_compare")
+    ctx.ob("a.compare-kernels", f, "mapping-is-one-operand", len(ss) >= 3 and not bad,
+           f"{len(ss)} operand tests of the comparison / arithmetic kernels, each taking a mapping for one value", f.node,
+           message="; ".join(f"{q} (line {ln}) pairs a mapping operand with the elements by its KEYS: Vector([1, 2]) == {{1: 'x', 2: 'y'}} gives "
+                             f"[True, True] where Python compares an int with a dict (False)" for q, ln, _n, _ok in bad[:2]))
 
 
 def _empty_list_mask(ctx) -> None:
@@ -1191,6 +1213,12 @@ def _rows(ctx) -> None:
 
 _V, _T = "vector", "table"
 MUTANTS = [
+    dict(id="compare-pairs-mapping-keys", module=_V,
+         old="		if isinstance(other, Iterable) and not isinstance(other, (str, bytes, bytearray, int, float, complex, Enum, Mapping)):\n			# Raise mismatched lengths",
+         new="		if isinstance(other, Iterable) and not isinstance(other, (str, bytes, bytearray, int, float, complex, Enum)):\n			# Raise mismatched lengths",
+         rules=["a.compare-kernels"], desc="reverts fix 18304b1 (vector comparison kernel)"),
+    dict(id="row-name-exact-str-type", module=_T, old="		if isinstance(key, str):\n			# (a str subclass", new="		if type(key) is str:\n			# (a str subclass",
+         rules=["d.dispatch-exhaustive"], desc="reverts fix 4cce835"),
     dict(id="table-refuses-empty-selection", module=_T, count=1,
          old="		if (isinstance(key, list) or (isinstance(key, Vector) and key.schema() is None)) and len(key) == 0:\n			# the empty list and an untyped empty vector (Vector([]): a mask",
          new="		if False:\n			# the empty list and an untyped empty vector (Vector([]): a mask", rules=["d.dispatch-exhaustive"], desc="reverts fix 171ac85"),
